@@ -715,4 +715,223 @@ theorem expTerms_error (E : Env) (hB : 2 ≤ E.B) (hc : CoarseSound E.c) (r : FB
   rw [e] at happ
   exact happ
 
+/-! ### the loop of `Context::iacoth` (all terms positive) -/
+
+/-- `sum += increase` keeps a sum `≥ B^L` at or above `B^L` (`fAddSub_keeps` is the case `L = 0`) -/
+theorem fAddSub_keeps_pow (E : Env) (hB : 2 ≤ E.B) (hc : CoarseSound E.c) (hdub : DubSound E.B E.est.dub) (x y : FBigM)
+    (hp : 1 ≤ ctxMaxP x.prec y.prec) (L : Int) (hx : bpowQ E.B L ≤ val E.B x) (hy : 0 < y.repr.signif) :
+    bpowQ E.B L ≤ val E.B (fAddSub E x y 1) := by
+  have hB0 : 0 < E.B := by omega
+  have hLpos := bpowQ_pos E.B hB0 L
+  have hxs : 0 < x.repr.signif := by
+    by_contra hcon
+    have h1 : (x.repr.signif : ℚ) ≤ 0 := by exact_mod_cast (by omega : x.repr.signif ≤ 0)
+    have := bpowQ_pos E.B hB0 x.repr.exp
+    simp only [val, FRepr.toRat] at hx
+    nlinarith
+  have hyq : (0 : ℚ) < y.repr.toRat E.B := by
+    unfold FRepr.toRat
+    exact mul_pos (by exact_mod_cast hy) (bpowQ_pos E.B hB0 _)
+  have hxz : x.repr.isZero = false := by
+    unfold FRepr.isZero
+    have : (x.repr.signif == 0) = false := by simp; omega
+    simp [this]
+  have hyz : y.repr.isZero = false := by
+    unfold FRepr.isZero
+    have : (y.repr.signif == 0) = false := by simp; omega
+    simp [this]
+  simp only [val, fAddSub, hxz, hyz, Bool.false_eq_true, if_false, one_mul]
+  simp only [val] at hx
+  by_cases heq : x.repr.exp = y.repr.exp
+  · rw [if_pos heq]
+    have hcon := reprRound_contract E.B hB E.m E.c hc _ hp _
+      (FRepr.new_normalized E.B hB (x.repr.signif + y.repr.signif) x.repr.exp)
+    rw [FRepr.new_value E.B hB0] at hcon
+    apply contract_ge_pow hB hp hcon
+    have : ((x.repr.signif + y.repr.signif : Int) : ℚ) * bpowQ E.B x.repr.exp =
+        x.repr.toRat E.B + (y.repr.signif : ℚ) * bpowQ E.B x.repr.exp := by
+      unfold FRepr.toRat; push_cast; ring
+    rw [this]
+    have : (0 : ℚ) ≤ (y.repr.signif : ℚ) * bpowQ E.B x.repr.exp :=
+      mul_nonneg (by exact_mod_cast hy.le) (bpowQ_pos E.B hB0 _).le
+    linarith
+  · rw [if_neg heq]
+    by_cases hgt : x.repr.exp > y.repr.exp
+    · rw [if_pos hgt]
+      obtain ⟨X, hcon, hX, _⟩ := addLargeSmall_pos E.B hB E.m E.c hc E.est.dub _ hp x.repr y.repr hxs hy hgt
+      apply contract_ge_pow hB hp hcon
+      linarith
+    · rw [if_neg hgt]
+      have hlt : x.repr.exp < y.repr.exp := by omega
+      obtain ⟨X, hcon, hX, hXeq⟩ := addLargeSmall_pos E.B hB E.m E.c hc E.est.dub _ hp ⟨y.repr.signif, y.repr.exp⟩ x.repr
+        hy hxs hlt
+      apply contract_ge_pow hB hp hcon
+      by_cases hfar : E.est.dub x.repr.signif + 1 < ((⟨y.repr.signif, y.repr.exp⟩ : FRepr).exp - x.repr.exp).toNat ∧
+          E.est.dub x.repr.signif + 1 + ctxMaxP x.prec y.prec <
+            (⟨y.repr.signif, y.repr.exp⟩ : FRepr).digits E.B + ((⟨y.repr.signif, y.repr.exp⟩ : FRepr).exp - x.repr.exp).toNat
+      · have hd := hdub x.repr.signif
+        have hlt2 := toRat_abs_lt E.B hB x.repr
+        have hle : bpowQ E.B (x.repr.exp + (x.repr.digits E.B : Int)) ≤ bpowQ E.B y.repr.exp := by
+          apply bpowQ_mono E.B hB
+          have := hfar.1
+          simp only at this
+          unfold FRepr.digits
+          omega
+        have hxa : x.repr.toRat E.B ≤ |x.repr.toRat E.B| := le_abs_self _
+        have hyv : bpowQ E.B y.repr.exp ≤ (⟨y.repr.signif, y.repr.exp⟩ : FRepr).toRat E.B := by
+          unfold FRepr.toRat
+          simp only
+          have : (1 : ℚ) ≤ (y.repr.signif : ℚ) := by exact_mod_cast hy
+          have := bpowQ_pos E.B hB0 y.repr.exp
+          nlinarith
+        linarith
+      · rw [hXeq hfar]
+        have : (⟨y.repr.signif, y.repr.exp⟩ : FRepr).toRat E.B = y.repr.toRat E.B := rfl
+        rw [this]; linarith
+
+/-- value order decides `reprCmp` -/
+theorem reprCmp_lt_of_val_lt (B : Nat) (hB : 2 ≤ B) (a b : FRepr) (h : a.toRat B < b.toRat B) : reprCmp B a b = .lt := by
+  have hB0 : 0 < B := by omega
+  unfold reprCmp
+  simp only
+  have hm1 : min a.exp b.exp ≤ a.exp := min_le_left _ _
+  have hm2 : min a.exp b.exp ≤ b.exp := min_le_right _ _
+  generalize min a.exp b.exp = em at *
+  have s1 := bpowQ_split B hB em a.exp hm1
+  have s2 := bpowQ_split B hB em b.exp hm2
+  have hpe := bpowQ_pos B hB0 em
+  rw [compare_lt_iff_lt]
+  unfold FRepr.toRat at h
+  rw [s1, s2] at h
+  have hq : ((a.signif * ((B ^ (a.exp - em).toNat : Nat) : Int) : Int) : ℚ) <
+      ((b.signif * ((B ^ (b.exp - em).toNat : Nat) : Int) : Int) : ℚ) := by
+    push_cast at h ⊢
+    by_contra hc
+    have hge := not_lt.mp hc
+    have := mul_le_mul_of_nonneg_right hge hpe.le
+    nlinarith
+  exact_mod_cast hq
+
+/-- `convert_int(k)` at `w ≥ 1` digits is at least `1` for `k ≥ 1` -/
+theorem fConvertInt_ge_one (E : Env) (hB : 2 ≤ E.B) (hc : CoarseSound E.c) (w : Nat) (hw : 1 ≤ w) (k : Int) (hk : 1 ≤ k) :
+    1 ≤ val E.B (fConvertInt E w k) := by
+  have hB0 : 0 < E.B := by omega
+  have hcon := reprRound_contract E.B hB E.m E.c hc w hw _ (FRepr.new_normalized E.B hB k 0)
+  rw [FRepr.new_value E.B hB0, bpowQ_zero] at hcon
+  have h1 : bpowQ E.B 0 ≤ (k : ℚ) * 1 := by
+    rw [bpowQ_zero]
+    have : (1 : ℚ) ≤ (k : ℚ) := by exact_mod_cast hk
+    linarith
+  have := contract_ge_pow hB hw hcon 0 h1
+  rw [bpowQ_zero] at this
+  simpa [val, fConvertInt] using this
+
+/-- `pow / convert_int(k)`: the quotient does not exceed a power-of-base bound of `pow` -/
+theorem fDiv_conv_bound (E : Env) (hB : 2 ≤ E.B) (hc : CoarseSound E.c) (x : FBigM) (w : Nat) (hw : 1 ≤ w) (k : Int)
+    (hk : 1 ≤ k) (a : Int) (hx0 : 0 ≤ val E.B x) (hxa : val E.B x ≤ bpowQ E.B a) :
+    ∃ inc, fDiv E x (fConvertInt E w k) = .ok inc ∧ inc.prec = ctxMaxP x.prec w ∧
+      0 ≤ val E.B inc ∧ val E.B inc ≤ bpowQ E.B a := by
+  have hB0 : 0 < E.B := by omega
+  have hc1 := fConvertInt_ge_one E hB hc w hw k hk
+  have hcs : (fConvertInt E w k).repr.signif ≠ 0 := by
+    intro h
+    simp only [val, FRepr.toRat, h] at hc1
+    norm_num at hc1
+  have hp : 1 ≤ ctxMaxP x.prec (fConvertInt E w k).prec := le_trans hw (ctxMaxP_ge_right _ _)
+  obtain ⟨r, hr, hcon⟩ := reprDiv_contract E.B hB E.m _ hp x.repr (fConvertInt E w k).repr hcs
+  refine ⟨⟨r.1, ctxMaxP x.prec (fConvertInt E w k).prec⟩, by simp only [fDiv, hr], rfl, ?_⟩
+  have hcpos : (0 : ℚ) < (fConvertInt E w k).repr.toRat E.B := lt_of_lt_of_le one_pos hc1
+  have hq0 : 0 ≤ x.repr.toRat E.B / (fConvertInt E w k).repr.toRat E.B := div_nonneg hx0 hcpos.le
+  have hq : x.repr.toRat E.B / (fConvertInt E w k).repr.toRat E.B ≤ bpowQ E.B a :=
+    le_trans (div_le_self hx0 hc1) hxa
+  exact contract_le_pow hB hp hcon hq0 _ hq
+
+/-- `sum.sub_ulp()` of a sum `≥ B^L` is at least `B^(L − cS − precision)` -/
+theorem subUlp_ge_pow (E : Env) (hB : 2 ≤ E.B) (cS : Nat) (hd : DlbTight E.B E.est.dlb cS) (sm : FBigM) (L : Int)
+    (h1 : bpowQ E.B L ≤ val E.B sm) : L - (cS : Int) - (sm.prec : Int) ≤ (fSubUlp E sm).exp := by
+  have hlt := toRat_abs_lt E.B hB sm.repr
+  have h0 : bpowQ E.B L < bpowQ E.B (sm.repr.exp + (sm.repr.digits E.B : Int)) := by
+    have : val E.B sm ≤ |sm.repr.toRat E.B| := le_abs_self _
+    exact lt_of_le_of_lt (le_trans h1 this) hlt
+  have hT := bpowQ_lt_bpowQ E.B hB _ _ h0
+  have := hd sm.repr.signif
+  unfold FRepr.digits at hT
+  simp only [fSubUlp]
+  omega
+
+/-- **Step bound of the loop of `Context::iacoth`** (`pow *= inv2; increase = pow / k; if increase < sum.sub_ulp() return;
+    sum += increase; k += 2`) with `0 ≤ inv2 ≤ B^(−u)` held at `w ≥ 1` digits: from a state `0 ≤ pow ≤ B^b`, `sum ≥ B^L`, both
+    at precision `w`, the loop returns a value within any fuel `≥ 1` with `u·fuel > b − L + cS + w`, and the last index is
+    below `k + 2·fuel`. -/
+theorem iacothLoop_bound (E : Env) (hB : 2 ≤ E.B) (hc : CoarseSound E.c) (hdub : DubSound E.B E.est.dub) (cS : Nat)
+    (hd : DlbTight E.B E.est.dlb cS) (inv2 : FBigM) (w u : Nat) (hw : 1 ≤ w) (hip : inv2.prec = w)
+    (hi0 : 0 ≤ val E.B inv2) (hiu : val E.B inv2 ≤ bpowQ E.B (-(u : Int))) (L : Int) :
+    ∀ (fuel : Nat) (pw sm : FBigM) (k : Nat) (b : Int),
+      pw.prec = w → 0 ≤ val E.B pw → val E.B pw ≤ bpowQ E.B b → bpowQ E.B L ≤ val E.B sm → sm.prec = w → 1 ≤ k →
+      1 ≤ fuel → b - L + (cS : Int) + (w : Int) < (u : Int) * (fuel : Int) →
+      ∃ res, iacothLoop E w inv2 fuel pw sm k = .ok (some res) ∧ k ≤ res.2 ∧ res.2 < k + 2 * fuel := by
+  have hB0 : 0 < E.B := by omega
+  intro fuel
+  induction fuel with
+  | zero => intro pw sm k b _ _ _ _ _ _ h _; omega
+  | succ fuel ih =>
+    intro pw sm k b hpp hp0 hpb hsL hsp hk _ hfuel
+    rw [iacothLoop]
+    try dsimp only
+    have hmp : 1 ≤ ctxMaxP pw.prec inv2.prec := by rw [hpp, hip, ctxMaxP_self]; exact hw
+    obtain ⟨hm0, hmu⟩ := fMul_bound E hB hc pw inv2 hmp _ _ hp0 hpb hi0 hiu
+    have hmprec : (fMul E pw inv2).prec = w := by simp only [fMul]; rw [hpp, hip, ctxMaxP_self]
+    have hk1 : (1 : Int) ≤ (k : Int) := by exact_mod_cast hk
+    obtain ⟨inc, hdiv, hincp, hinc0, hincu⟩ := fDiv_conv_bound E hB hc (fMul E pw inv2) w hw (k : Int) hk1 _ hm0 hmu
+    rw [hdiv]
+    try dsimp only
+    have hincw : inc.prec = w := by rw [hincp, hmprec, ctxMaxP_self]
+    by_cases hstop : reprCmp E.B inc.repr (fSubUlp E sm) = .lt
+    · rw [if_pos hstop]
+      exact ⟨(sm, k), rfl, Nat.le_refl _, by show k < k + 2 * (fuel + 1); omega⟩
+    · rw [if_neg hstop]
+      have hthr := subUlp_ge_pow E hB cS hd sm L hsL
+      rw [hsp] at hthr
+      have hthrv : (fSubUlp E sm).toRat E.B = bpowQ E.B (fSubUlp E sm).exp := by
+        simp only [fSubUlp, FRepr.toRat]; norm_num
+      have hnot : ¬ (b - (u : Int) < L - (cS : Int) - (w : Int)) := by
+        intro hlt
+        apply hstop
+        apply reprCmp_lt_of_val_lt E.B hB
+        rw [hthrv]
+        have h1 : bpowQ E.B (b + -(u : Int)) < bpowQ E.B (L - (cS : Int) - (w : Int)) := by
+          rw [bpowQ_eq_zpow, bpowQ_eq_zpow]
+          have h1' : (1 : ℚ) < (E.B : ℚ) := by exact_mod_cast (by omega : 1 < E.B)
+          exact zpow_lt_zpow_right₀ h1' (by omega)
+        have h2 := bpowQ_mono E.B hB _ _ hthr
+        exact lt_of_le_of_lt hincu (lt_of_lt_of_le h1 h2)
+      have hsig0 := signif_nonneg_of_val E.B hB inc.repr hinc0
+      have hsigpos : 0 < inc.repr.signif := by
+        by_contra hc0
+        have hz : inc.repr.signif = 0 := by omega
+        apply hstop
+        apply reprCmp_lt_of_val_lt E.B hB
+        rw [hthrv]
+        unfold FRepr.toRat
+        rw [hz]
+        simp only [Int.cast_zero, zero_mul]
+        exact bpowQ_pos E.B hB0 _
+      have hpinc : 1 ≤ ctxMaxP sm.prec inc.prec := by rw [hsp, hincw, ctxMaxP_self]; exact hw
+      have hsm' : bpowQ E.B L ≤ val E.B (fAddSub E sm inc 1) := fAddSub_keeps_pow E hB hc hdub sm inc hpinc L hsL hsigpos
+      have hprec' : (fAddSub E sm inc 1).prec = w := by simp only [fAddSub]; rw [hsp, hincw, ctxMaxP_self]
+      have hfuel1 : 1 ≤ fuel := by
+        by_contra hc0
+        have : fuel = 0 := by omega
+        subst this
+        push_cast at hfuel
+        omega
+      have hfuel' : (b + -(u : Int)) - L + (cS : Int) + (w : Int) < (u : Int) * (fuel : Int) := by
+        push_cast at hfuel
+        have : (u : Int) * ((fuel : Int) + 1) = (u : Int) * (fuel : Int) + (u : Int) := by ring
+        omega
+      obtain ⟨res, hres, hk1', hk2⟩ := ih (fMul E pw inv2) (fAddSub E sm inc 1) (k + 2) (b + -(u : Int)) hmprec hm0 hmu
+        hsm' hprec' (by omega) hfuel1 hfuel'
+      exact ⟨res, hres, by omega, by omega⟩
+
+
 end Dashu.Proofs.Trans.SeriesBound
